@@ -69,6 +69,7 @@ type smcWorld struct {
 	outSeq     int
 	delivered  []smcOut  // what was delivered, with the delivery instant in .at
 	stuck      bool      // the clock could not be advanced (a goroutine is blocked on a library lock)
+	target     *smcWorld // when set, the application handler records into this world instead
 	shared     *smcWorld // a redial shares the Client (and its application handler) with this world
 }
 
@@ -117,17 +118,21 @@ func newSmcWorld(e *Env, wd bool) *smcWorld {
 		if la := c.LocalAddr(); la != nil {
 			local = la.String()
 		}
-		w.mu.Lock()
-		w.enters = append(w.enters, seq)
-		w.metaOK = append(w.metaOK, ok)
-		w.enterLocal = append(w.enterLocal, local)
+		dst := w
+		if w.target != nil {
+			dst = w.target // the Client was handed to a later world (switched-on watchdog re-dial)
+		}
+		dst.mu.Lock()
+		dst.enters = append(dst.enters, seq)
+		dst.metaOK = append(dst.metaOK, ok)
+		dst.enterLocal = append(dst.enterLocal, local)
 		var gate chan struct{}
-		if w.parkSeq != 0 && seq == w.parkSeq {
+		if dst.parkSeq != 0 && seq == dst.parkSeq {
 			gate = make(chan struct{})
-			w.gate = gate
+			dst.gate = gate
 			e.ParkBegin(true)
 		}
-		w.mu.Unlock()
+		dst.mu.Unlock()
 		if gate != nil {
 			<-gate // the application's handler blocks until the engine lets it go
 		}
@@ -147,6 +152,27 @@ func newSmcWorld(e *Env, wd bool) *smcWorld {
 		w.cli.WatchdogStream = uint(t.Range(1, 15))
 		e.Probe("watchdog-stream-on-single-stream-transport")
 	}
+	if w.I == time.Second && t.Chance(1, 3) {
+		w.cli.RetransmitInterval = 0 // unset: the documented default is one second
+		e.Probe("retransmit-interval-left-at-default")
+	}
+	if w.W == 5*time.Second && t.Chance(1, 2) {
+		w.cli.WatchdogInterval = 0 // unset: the documented default is five seconds
+		e.Probe("watchdog-interval-left-at-default")
+	}
+	w.drawApps()
+	w.start = time.Now()
+	e.Act("client", "R=%d I=%v W=%v watchdog=%v apps=%d addrs=%d", w.R, w.I, w.W, wd, len(w.advertised), len(w.cfgAddrs))
+	return w
+}
+
+// drawApps (re)configures the applications the Client advertises; between two dials of the
+// same Client the application may do that again.
+func (w *smcWorld) drawApps() {
+	e, t := w.e, w.e.T
+	_ = e
+	w.advertised = map[appKey]bool{}
+	w.cli.AuthApplicationID, w.cli.AcctApplicationID, w.cli.VendorSpecificApplicationID, w.cli.SupportedVendorID = nil, nil, nil, nil
 	// advertised applications
 	switch t.Pick(3, 2, 2, 1, 1) {
 	case 4:
@@ -175,9 +201,6 @@ func newSmcWorld(e *Env, wd bool) *smcWorld {
 		w.cli.SupportedVendorID = []*diam.AVP{diam.NewAVP(avp.SupportedVendorID, avp.Mbit, 0, datatype.Unsigned32(sv))}
 		w.advertised[appKey{16777251, "auth"}] = true
 	}
-	w.start = time.Now()
-	e.Act("client", "R=%d I=%v W=%v watchdog=%v apps=%d addrs=%d", w.R, w.I, w.W, wd, len(w.advertised), len(w.cfgAddrs))
-	return w
 }
 
 func (w *smcWorld) dial() {
@@ -835,6 +858,11 @@ func c12Run(e *Env) {
 	e.Probe("redial")
 	e.Act("redial", "first dial ok=%v kept=%v", ok, keepFirst)
 	w2 := w.redial()
+	if e.T.Chance(1, 3) {
+		// the application changed what the Client advertises before dialling again
+		w2.drawApps()
+		e.Probe("applications-changed-before-redial")
+	}
 	s2 := hsScript{answerCER: 1, ceaKind: "success", delayClass: "quick", delay: time.Duration(e.T.Draw(3)) * w.I / 4}
 	if e.T.Chance(1, 3) {
 		s2.answerCER = 0 // silence: the second dial must time out like a first one would
@@ -927,7 +955,27 @@ func c13Client(e *Env, forC14 bool) { c13ClientX(e, forC14, nil) }
 func c13ClientX(e *Env, forC14 bool, forced *c13Forced) {
 	t := e.T
 	e.TrustWait = true
-	w := newSmcWorld(e, true)
+	var w *smcWorld
+	if forced == nil && !forC14 && t.Chance(1, 8) {
+		// the Client first dials with the watchdog off and WatchdogInterval never set; the
+		// application then switches EnableWatchdog on and dials again: the documented default
+		// interval (five seconds) applies to the new connection
+		w0 := newSmcWorld(e, false)
+		w0.cli.WatchdogInterval = 0
+		ok := smcHandshake(w0, hsScript{answerCER: 1, ceaKind: "success", delayClass: "quick"})
+		w0.teardown()
+		if !ok || e.Failed() {
+			return
+		}
+		w0.cli.EnableWatchdog = true
+		w = w0.redial()
+		w.watchdog, w.W = true, 5*time.Second
+		w0.target = w
+		e.Probe("watchdog-switched-on-before-redial")
+		e.Act("watchdog-switched-on", "")
+	} else {
+		w = newSmcWorld(e, true)
+	}
 	if forced != nil {
 		w.R, w.I, w.W = forced.R, time.Second, 5*time.Second
 		w.cli.MaxRetransmits, w.cli.RetransmitInterval, w.cli.WatchdogInterval = uint(w.R), w.I, w.W
